@@ -65,5 +65,66 @@ def count(lang, text, kind, name):
     return len(re.findall(pat, bl))
 
 
+def _split_top(s, lang="kotlin"):
+    """split a type-parameter list at its top-level commas (in Scala < and > are not brackets: T <: B)"""
+    out, depth, cur = [], 0, ""
+    op, cl = ("[(", "])") if lang == "scala" else ("<[(", ">])")
+    for ch in s:
+        if ch in op:
+            depth += 1
+        elif ch in cl:
+            depth -= 1
+        if ch == "," and depth == 0:
+            out.append(cur)
+            cur = ""
+        else:
+            cur += ch
+    return out + [cur]
+
+
+def _param_list(bl, start, open_ch, close_ch):
+    """text between the bracket at bl[start] and its matching bracket"""
+    depth = 0
+    for i in range(start, len(bl)):
+        if bl[i] == open_ch:
+            depth += 1
+        elif bl[i] == close_ch:
+            depth -= 1
+            if depth == 0:
+                return bl[start + 1:i]
+    return ""
+
+
+def count_tparam(lang, text, kind, owner, tparam):
+    """number of headers of `owner` (a function or a class) whose type-parameter list declares `tparam`"""
+    bl = blank_literals(text).replace("->", "  ").replace("=>", "  ")
+    o = re.escape(owner)
+    hits = 0
+    if kind == "fun_tparam":
+        if lang == "kotlin":
+            heads = [(m.end() - 1, "<", ">") for m in re.finditer(r"\bfun\s*<", bl)]
+            # the list comes before the name: keep the headers whose name (after the list) is the owner
+            for st, a, b in heads:
+                lst = _param_list(bl, st, a, b)
+                rest = bl[st + len(lst) + 2:]
+                if re.match(r"\s*%s\s*\(" % o, rest) and any(re.match(r"\s*(?:in\s+|out\s+)?%s\b" % re.escape(tparam), it) for it in _split_top(lst, lang)):
+                    hits += 1
+            return hits
+        if lang == "scala":
+            for m in re.finditer(r"\bdef\s+%s\s*\[" % o, bl):
+                lst = _param_list(bl, m.end() - 1, "[", "]")
+                if any(re.match(r"\s*[+-]?%s\b" % re.escape(tparam), it) for it in _split_top(lst, lang)):
+                    hits += 1
+            return hits
+        return 999999
+    kw = {"kotlin": r"(?:class|interface)", "scala": r"(?:class|trait)", "java": r"(?:class|interface)", "groovy": r"(?:class|interface|trait)"}[lang]
+    a, b = ("[", "]") if lang == "scala" else ("<", ">")
+    for m in re.finditer(r"\b%s\s+%s\s*%s" % (kw, o, re.escape(a)), bl):
+        lst = _param_list(bl, m.end() - 1, a, b)
+        if any(re.match(r"\s*(?:in\s+|out\s+|[+-])?%s\b" % re.escape(tparam), it) for it in _split_top(lst, lang)):
+            hits += 1
+    return hits
+
+
 def _unescape(s):
     return s.replace('\\"', '"').replace("\\\\", "\\").replace("\\$", "$")
